@@ -474,7 +474,7 @@ func runC15(c *h.Ctx) {
 	// random larger trees
 	r := c.Rand("c15")
 	dc := gen.DocCfg{Depth: 5, MaxKids: 3, Keys: []string{"a", "b", "c"}, Strs: []string{"s", ""}, Nums: []string{"1", "0", "2.5"}}
-	n := c.PerShard(c.N(3000, 300000))
+	n := c.PerShard(c.N(6000, 300000))
 	for i := 0; i < n; i++ {
 		checkTree(c, gen.Doc(r, dc), specs, true)
 	}
